@@ -197,7 +197,7 @@ def check(case):
 
 def _sweep_items(tier):
     rows = list(range(2, 401)) + list(range(500, 525)) + list(range(1000, 1040)) if tier == "quick" else list(range(2, 2201))
-    return [("outname", k, 0) for k in range(20, 251)] + [(n, 2, 2) for n in rows] + [(3, w, 2) for w in range(1, 261)] + [(3, 70, nl) for nl in range(1, 201)] + \
+    return [("outname", k, 0) for k in range(20, 251)] + [(n, 2, 2) for n in rows] + [(3, w, 2) for w in range(1, 261)] + [(3, 70, nl) for nl in range(1, 341)] + \
            [(n, 61, 2) for n in (16, 17, 18, 340, 341, 342, 510, 511, 512, 513)]
 
 
@@ -240,5 +240,5 @@ def extra(tier, seed, stats):
             stats.record(c, r)
             if r["status"] == "violation":
                 out.append({"case": c, "detail": r["detail"], "kind": r.get("kind")})
-    stats.extra["sweep"] = "every row count %s (width 2), every width 1..260 (3 rows), every name length 1..200, every output file name length 20..250 for a protein alignment (exhaustive over those ranges)" % ("2..400, 500..524, 1000..1039" if tier == "quick" else "2..2200")
+    stats.extra["sweep"] = "every row count %s (width 2), every width 1..260 (3 rows), every name length 1..340, every output file name length 20..250 for a protein alignment (exhaustive over those ranges)" % ("2..400, 500..524, 1000..1039" if tier == "quick" else "2..2200")
     return out
